@@ -346,8 +346,25 @@ def run(world, rep, tier, only=None):
     rep.ob("C12.e", site(cfs, "superblock bytes compared"), bool(mem), "memcmp(fs superblock, recorded superblock)")
     rep.ob("C12.e", site(cfs, "superblock crc compared"), "sb_crc" in cb2, "hdr->sb_crc compared with the computed crc")
 
-    # ------------------------------------------------------------------ C12.f e2undo
+    # ------------------------------------------------------------------ C12.g sibling agreement
     main = prog.fn("main", "misc/e2undo.c")
+    sh_replay = key_walk_shapes(main)
+    sh_reopen = key_walk_shapes(tr)
+    rep.floor("C12.g key-walk advance expressions", min(len(sh_replay), len(sh_reopen)), 1)
+    rep.ob("C12.g", "%s:try_reopen_undo_file~misc/e2undo.c:main:key extent length" % UNDO,
+           len(sh_replay) == 1 and sh_replay == sh_reopen,
+           "the two readers of the key list (e2undo replay, undo-file re-open) advance the undo-file cursor and mark the "
+           "recorded range by the same function of (key size S, undo block size B): replay %s, re-open %s" %
+           (sorted(sh_replay), sorted(sh_reopen)))
+    # the writer stores one undo block per recorded block: cursor advanced by exactly 1 after each data write
+    inc = [n for n in wt.events("S") if T.last_field(n.ev["lhs"]) == ("undo_private_data", "undo_blk_num")
+           and n.ev["o"] in ("++", "+=")]
+    rep.ob("C12.g", site(wt, "writer advances one undo block per saved block"),
+           bool(inc) and all(wt.dominated_by(i, writes) for i in inc) and
+           all(n.ev["o"] == "++" or T.const(n.ev.get("rhs")) == 1 for n in inc),
+           "data->undo_blk_num++ follows the undo-file data write")
+
+    # ------------------------------------------------------------------ C12.f e2undo
     cbm = check_blocks(main)
     dev_writes = [n for n in main.call_nodes() if effects.is_write_req(main, n) and T.path(arg(n, 0)) == "channel"]
     rep.floor("C12.f device writes in e2undo main", len(dev_writes), 1)
@@ -431,6 +448,53 @@ def _innermost_loop(fn, bid):
             if best is None or len(body) < best:
                 best, head = len(body), hb
     return head
+
+
+def _shape(fn, e, depth=0):
+    """canonical shape of an arithmetic expression over roles: S = a recorded key's size,
+    B = the undo block size; locals are resolved through their single definition"""
+    e = T.strip(e)
+    if not isinstance(e, dict) or depth > 8:
+        return "?"
+    c = T.const(e)
+    if c is not None and e.get("k") != "v":
+        return str(c)
+    k = e.get("k")
+    if k == "c" and e.get("fn") in ("ext2fs_le32_to_cpu", "ext2fs_le64_to_cpu", "ext2fs_cpu_to_le32") and e.get("a"):
+        return _shape(fn, e["a"][0], depth + 1)
+    if k == "m":
+        if e["f"] == "size" and e.get("r") in ("undo_key", "undo_key_info"):
+            return "S"
+        if e["f"] in ("blocksize", "block_size", "tdb_data_size"):
+            return "B"
+        return e["f"]
+    if k == "v":
+        if e.get("s") == "l":
+            r = resolve_local(fn, e)
+            if r is not e and T.strip(r) is not e:
+                return _shape(fn, r, depth + 1)
+        return e["n"]
+    if k == "b":
+        return "(%s %s %s)" % (_shape(fn, e["l"], depth + 1), e["o"], _shape(fn, e["r"], depth + 1))
+    if k == "u":
+        return "%s%s" % (e.get("o"), _shape(fn, e["e"], depth + 1))
+    return "?"
+
+
+def key_walk_shapes(fn):
+    """shapes of the amounts by which a walker advances its undo-file cursor per key"""
+    out = set()
+    for n in fn.events("S"):
+        if n.ev["o"] != "+=":
+            continue
+        sh = _shape(fn, n.ev.get("rhs"))
+        if "S" in sh.replace("SUPER", ""):
+            out.add(sh)
+    for n in calls_to(fn, "ext2fs_mark_block_bitmap_range2"):
+        sh = _shape(fn, arg(n, 2))
+        if "S" in sh:
+            out.add(sh)
+    return out
 
 
 def _first_retval_test(fn, node):
